@@ -519,7 +519,7 @@ def pmt_decode_lines(ctx):
             continue
         lines.append(gen.H("MPEGPacketPMT", ["unpack " + hexb(b), "obs", "pack", "obs"]))
         for m in pmt_mutants(rng, b, thorough=(ctx.tier == "thorough")):
-            lines.append(gen.H("MPEGPacketPMT", ["unpack " + hexb(m), "obs"]))
+            lines.append(gen.H("MPEGPacketPMT", ["unpack " + hexb(m), "obs", "pack", "obs"]))   # re-encode what was accepted
     return lines
 
 K2_WITNESS = {"sync": "71", "adaption_ctrl": "1", "streamid": "224", "pesdata": hexb(bytes([0x80]) + bytes(177))}
@@ -1242,6 +1242,39 @@ def check_pmt_crc(args):
         return "crc32mpeg2() differs from CRC-32/MPEG-2 on %s" % hexb(prot)
     return None
 
+def check_pmt_crc_redecode(args):
+    """the same for an object that has DECODED a legal packet before it encodes: the section is moved behind a
+    non-zero pointer_field (filler 0xFF, section bytes and CRC untouched), decoded, and encoded again; the CRC
+    field of what is emitted must be CRC-32/MPEG-2 of the section emitted, wherever it starts"""
+    p = build("MPEGPacketPMT", args["fields"])
+    if not pmt_wf(p):
+        return None
+    b = p.pack()
+    if len(b) != 188:
+        return None
+    lo, hi = _pmt_section_range(b)
+    v = args["pointer"]
+    start = lo - 1
+    if hi + v > 188:
+        return None
+    moved = b[:start] + bytes([v]) + b"\xff" * v + b[lo:hi] + b"\xff" * (188 - hi - v)
+    q = build("MPEGPacketPMT", {})
+    if q.unpack(moved) is not True:
+        return "MPEGPacketPMT.unpack rejects a legal section placed behind pointer_field=%d: %s" % (v, hexb(moved))
+    for k in range(2):
+        b2 = q.pack()
+        lo2, hi2 = _pmt_section_range(b2)
+        if hi2 > len(b2):
+            return "after decoding a packet with pointer_field=%d, pack() emits a section that overruns the packet: %s" % (v, hexb(b2))
+        prot, field = b2[lo2:hi2 - 4], int.from_bytes(b2[hi2 - 4:hi2], "big")
+        if field != ref_crc32_mpeg2(prot):
+            return ("after decoding a legal packet with pointer_field=%d, pack() writes CRC %#010x but CRC-32/MPEG-2 of "
+                    "the section it emits is %#010x" % (v, field, ref_crc32_mpeg2(prot)))
+        r = build("MPEGPacketPMT", {})
+        if r.unpack(b2) is not True:
+            return "after decoding a legal packet with pointer_field=%d, the decoder rejects the re-encoded packet" % v
+    return None
+
 def check_crc_fn(args):
     import AcraNetwork.MPEG.PMT as pmt
     d = bytes.fromhex(args["data"])
@@ -1327,7 +1360,7 @@ def _safe(fn, args):
     except Exception as e:
         return "%s: the emitted bytes cannot be analysed (%r)" % (fn.__name__, e)
 
-ORACLES.update({"mpeg_pmt_crc": check_pmt_crc, "mpeg_crc_fn": check_crc_fn, "mpeg_pmt_flip": check_pmt_flip,
+ORACLES.update({"mpeg_pmt_crc": check_pmt_crc, "mpeg_pmt_crc_redecode": check_pmt_crc_redecode, "mpeg_crc_fn": check_crc_fn, "mpeg_pmt_flip": check_pmt_flip,
                 "mpeg_stanag_sum": check_stanag_sum, "mpeg_sum_fn": check_sum_fn, "mpeg_stanag_flip": check_stanag_flip})
 
 def _first(fails, name, cls, check, fn, argss, ctx):
@@ -1351,6 +1384,8 @@ def oracles_C07(ctx, hints):
     _first(fails, "mpeg_sum_fn", "STANAG4609", "checksum_std", check_sum_fn, [{"data": d.hex()} for d in sums], ctx)
     _first(fails, "mpeg_pmt_crc", "MPEGPacketPMT", "crc_std", check_pmt_crc,
            [{"fields": pmt_valid(rng)} for _ in range(ctx.scale(40, 2000) * mult)], ctx)
+    _first(fails, "mpeg_pmt_crc_redecode", "MPEGPacketPMT", "crc_std", check_pmt_crc_redecode,
+           [{"fields": pmt_valid(rng), "pointer": v} for _ in range(ctx.scale(6, 200) * mult) for v in (0, 1, 3, 17, 60)], ctx)
     _first(fails, "mpeg_stanag_sum", "STANAG4609", "checksum_std", check_stanag_sum,
            [{"fields": stanag_valid(rng)} for _ in range(ctx.scale(40, 2000) * mult)] +
            [{"fields": dict(stanag_valid(rng), time_us=str(t))} for t in (0, 2 ** 64 - 1, 0xFFFF0000FFFF0000, 0x00FF00FF00FF00FF)], ctx)
